@@ -64,3 +64,70 @@ func VerifC10_RandomEmail() {
 	}
 	verif.Assert(verif.Implies(shaped, at), "email-shape-preserved")
 }
+
+// ---- token store: consistency, reversibility, isolation ----
+
+func verifPseudo() (common.Pseudoanonymizer, *verifStorage) {
+	st := newVerifStorage()
+	p, err := NewPseudoanonymizer(st)
+	if err != nil {
+		panic("pseudoanonymizer")
+	}
+	return p, st
+}
+
+// VerifC10_ConsistentTokens: consistent tokenization of byte strings on the memory token store: the same value maps
+// to the same token every time (also after the tokens were disabled and enabled again by maintenance), the owner gets
+// the value back, another client context gets the token itself, and two different values never share a token.
+func VerifC10_ConsistentTokens() {
+	p, st := verifPseudo()
+	ctxA := common.TokenContext{ClientID: []byte("A")}
+	ctxB := common.TokenContext{ClientID: []byte("B")}
+	n := verif.Choose("n", 1, 2)
+	v1 := verif.Bytes("v1", n)
+	v2 := verif.Bytes("v2", n)
+	verif.Assume(!verif.Eq(v1, v2))
+	t1, err := p.AnonymizeConsistently(append([]byte{}, v1...), ctxA, common.TokenType_Bytes)
+	verif.Assert(err == nil, "tokenize-v1")
+	if err != nil {
+		return
+	}
+	tok1 := t1.([]byte)
+	verif.Assert(len(tok1) == n, "token-same-length")
+	maintenance := verif.Choose("maintenance", 0, 1) == 1
+	if maintenance {
+		st.setDisabled(true)
+	}
+	t1b, err := p.AnonymizeConsistently(append([]byte{}, v1...), ctxA, common.TokenType_Bytes)
+	if maintenance {
+		st.setDisabled(false)
+		if err != nil {
+			// a disabled token may refuse service, but it must not be replaced
+			t1b, err = p.AnonymizeConsistently(append([]byte{}, v1...), ctxA, common.TokenType_Bytes)
+		}
+	}
+	verif.Reach("tokenized-twice")
+	verif.Assert(err == nil, "tokenize-v1-again")
+	if err != nil {
+		return
+	}
+	verif.Assert(verif.Eq(t1b.([]byte), tok1), "same-value-same-token")
+	back, err := p.Deanonymize(append([]byte{}, tok1...), ctxA, common.TokenType_Bytes)
+	verif.Assert(err == nil, "detokenize-owner")
+	if err == nil {
+		verif.Assert(verif.Eq(back.([]byte), v1), "owner-gets-original")
+	}
+	other, err := p.Deanonymize(append([]byte{}, tok1...), ctxB, common.TokenType_Bytes)
+	if err == nil {
+		verif.Assert(verif.Eq(other.([]byte), tok1), "other-context-gets-token-itself")
+	}
+	t2, err := p.AnonymizeConsistently(append([]byte{}, v2...), ctxA, common.TokenType_Bytes)
+	if err != nil {
+		return // the random source may exhaust its retries; an error is acceptable, a shared token is not
+	}
+	verif.Assert(!verif.Eq(t2.([]byte), tok1), "different-values-different-tokens")
+	back1, err := p.Deanonymize(append([]byte{}, tok1...), ctxA, common.TokenType_Bytes)
+	if err == nil {
+		verif.Assert(verif.Eq(back1.([]byte), v1), "first-token-still-reveals-first-value")
+	}
+}
